@@ -320,7 +320,12 @@ def used_qubit_helper_polarity(ctx, rep, rule):
     # no handler hands the raw argument on
     cons = construct_of(ra, "unresolved-not-forwarded")
     swallow = [h for tr in ast.walk(ra.node) if isinstance(tr, ast.Try) for h in tr.handlers if any(isinstance(r_, ast.Return) and isinstance(r_.value, ast.Name) and r_.value.id == argn for r_ in ast.walk(h))]
-    if swallow:
+    branch_bodies = [b for br in par + nq for b in br.body]
+    in_handlers = [x for tr in ast.walk(ra.node) if isinstance(tr, ast.Try) for h in tr.handlers for x in ast.walk(h)]
+    early = [r_ for b in branch_bodies for r_ in ast.walk(b) if isinstance(r_, ast.Return) and isinstance(r_.value, ast.Name) and r_.value.id == argn and not any(x is r_ for x in in_handlers)]
+    if early:
+        rep.violation(rule, cons, f"`{ast.unparse(early[0])}` inside the branch for parameters / named qubits hands the argument on unresolved under some condition (e.g. `its source is not a parameter`): an index that is a parameter of the caller is then resolved among the callee's parameters", f"{ra.path}:{early[0].lineno}", witness="macro inner i { Px q[i] }; macro outer i { inner 0; Px q[i] } with different bindings of i")
+    elif swallow:
         rep.violation(rule, cons, "a qubit argument that cannot be resolved in the caller's scope is returned as it is (`except JaqalError: return arg`) and is later resolved by name in the CALLEE's scope: dynamic scoping", f"{ra.path}:{swallow[0].lineno}")
     else:
         rep.ok(rule, cons, "a failure to resolve propagates", ra.loc())
